@@ -90,6 +90,30 @@ pub fn unknown_total(bytes: &[u8]) -> Vec<u8> {
     out
 }
 
+/// insert optional metadata blocks in front of the audio of a finished file
+pub fn rich_metadata(bytes: &[u8], all: bool) -> Vec<u8> {
+    use flac_codec::metadata::{Application, Cuesheet, Picture, PictureType, VorbisComment};
+    let mut blocks = BlockList::read(bytes).expect("blocklist");
+    let mut old = Vec::new();
+    write_blocks(&mut old, blocks.blocks()).unwrap();
+    let mut vc = VorbisComment::default();
+    vc.fields.push("TITLE=t".into());
+    vc.fields.push("WAVEFORMATEXTENSIBLE_CHANNEL_MASK=0x3".into());
+    blocks.insert(vc);
+    if all {
+        blocks.insert(Application { id: 0x61707031, data: vec![9; 5] });
+        blocks.insert(Picture { picture_type: PictureType::FrontCover, media_type: "image/png".into(), description: "d".into(), width: 1, height: 1, color_depth: 24, colors_used: None, data: vec![0x89, b'P', b'N', b'G'] });
+        let cue = "FILE \"a.wav\" WAVE\n  TRACK 01 AUDIO\n    INDEX 01 00:00:00\n";
+        if let Ok(c) = Cuesheet::parse(21, cue) {
+            blocks.insert(c);
+        }
+    }
+    let mut out = Vec::new();
+    write_blocks(&mut out, blocks.blocks()).unwrap();
+    out.extend_from_slice(&bytes[old.len()..]);
+    out
+}
+
 pub fn damage_corpus(quick: bool) -> Vec<TestFile> {
     let _ = quick; // both tiers use the full corpus now
     let quick = false;
@@ -109,6 +133,16 @@ pub fn damage_corpus(quick: bool) -> Vec<TestFile> {
             }
             v.push(from_bytes(format!("enc-ch{ch}-bps{bps}-seek{si}"), bytes, true));
         }
+    }
+    // metadata-rich: the same audio behind VORBIS_COMMENT (vendor + 2 fields, one of them a channel mask), APPLICATION,
+    // PICTURE and CUESHEET blocks, so that every byte of every variable-length metadata field (entry counts, string
+    // lengths, picture dimensions, track/index counts) is a substitution site
+    {
+        let sig = Sig { rate: 44100, bps: 16, ch: 2 };
+        let pcm = ident_pcm(2, 16, 16 + 5);
+        let bytes = encode(WriterKind::Sample, &Opt { seek: Seek::Frames(1), pad: Pad::Size(6), ..Opt::base16() }, &sig, &pcm).expect("corpus encode");
+        v.push(from_bytes("enc-ch2-bps16-rich-metadata".into(), rich_metadata(&bytes, true), true));
+        v.push(from_bytes("enc-ch2-bps16-comment-only".into(), rich_metadata(&bytes, false), true));
     }
     // grammar-built: every subframe kind, stereo mode, residual coding
     let mut push = |desc: String, spec: fgen::StreamSpec| {
